@@ -6,6 +6,7 @@ import (
 	"sort"
 	"time"
 
+	"github.com/sarchlab/akita/v4/mem/mem"
 	"github.com/sarchlab/akita/v4/sim"
 	"github.com/sarchlab/akita/v4/simulation"
 	"github.com/sarchlab/akita/v4/tracing"
@@ -55,6 +56,61 @@ type TimingObs struct {
 	Cycles int      `json:"cycles"`
 	Refused int     `json:"refused"` // Send attempts of completion messages that the dispatch port refused
 	Flushes int     `json:"flushes"` // pipeline flushes that took place
+	SReqs   []SReq  `json:"sreqs"`   // read requests of scalar loads as they left the scalar-memory port
+}
+
+// SReq is one read request of a scalar load: instruction (serial number),
+// wavefront, address, size, and the flag that tells the reply handler that
+// this is not the request whose reply closes the instruction.
+type SReq struct {
+	I  int    `json:"i"`
+	W  int    `json:"w"`
+	A  uint64 `json:"a"`
+	N  uint64 `json:"n"`
+	CW bool   `json:"cw"`
+}
+
+// scalarPortHook counts, per scalar instruction, the requests that left the
+// port and the replies that were taken from it (independently of the CU's
+// wait counters and of its in-flight table).
+type scalarPortHook struct{ r *recorder }
+
+func (h scalarPortHook) Func(ctx sim.HookCtx) {
+	r := h.r
+	if r.stopped {
+		return
+	}
+	switch m := ctx.Item.(type) {
+	case *mem.ReadReq:
+		if ctx.Pos != sim.HookPosPortMsgSend {
+			return
+		}
+		for _, info := range r.cu.InFlightScalarMemAccess {
+			if info.Req == m {
+				id := info.Inst.ID
+				r.sreqInst[m.ID] = id
+				r.sreqOpen[id]++
+				if !r.sreqSeen[m] { // (a replayed request is the same object with a new ID)
+					r.sreqSeen[m] = true
+					n, ok := r.sinstNo[id]
+					if !ok {
+						n = len(r.sinstNo)
+						r.sinstNo[id] = n
+					}
+					r.obs.SReqs = append(r.obs.SReqs, SReq{I: n, W: r.ids[info.Wavefront], A: m.Address, N: m.AccessByteSize, CW: m.CanWaitForCoalesce})
+				}
+				return
+			}
+		}
+	case *mem.DataReadyRsp:
+		if ctx.Pos != sim.HookPosPortMsgRetrieveIncoming {
+			return
+		}
+		if id, ok := r.sreqInst[m.RespondTo]; ok {
+			delete(r.sreqInst, m.RespondTo)
+			r.sreqOpen[id]--
+		}
+	}
 }
 
 // DoneRec is one WGCompletionMsg: work-group and the cycle it was sent in.
@@ -141,6 +197,10 @@ type recorder struct {
 	paused  bool
 	lastChk *Ev
 	pendFin map[string][2]int // memory instructions whose counters were decremented: ID -> wavefront, kind
+	sreqInst map[string]string      // scalar request ID -> instruction ID
+	sreqOpen map[string]int         // instruction ID -> requests sent and not yet answered
+	sreqSeen map[*mem.ReadReq]bool
+	sinstNo  map[string]int
 	lastInt int
 
 	pendingMaps []Ev
@@ -284,6 +344,7 @@ func (r *recorder) Func(ctx sim.HookCtx) {
 	if nowPaused && !r.wasPaused {
 		evs = append(evs, Ev{E: "flush"}) // doFlush runs at the end of the cycle
 		r.flushCount++
+		r.sreqInst, r.sreqOpen = map[string]string{}, map[string]int{} // every outstanding request is sent again after the restart
 	}
 	if !nowPaused && r.wasPaused {
 		evs = append(evs, Ev{E: "restart"})
@@ -299,6 +360,11 @@ func (r *recorder) Func(ctx sim.HookCtx) {
 		}
 		for _, info := range r.cu.InFlightScalarMemAccess {
 			busy[info.Inst.ID] = true
+		}
+		for id, n := range r.sreqOpen { // requests on the port that nobody answered yet
+			if n > 0 {
+				busy[id] = true
+			}
 		}
 		ids := make([]string, 0, len(r.pendFin))
 		for id := range r.pendFin {
@@ -502,7 +568,7 @@ func runTiming(c Case, ws []uint32, timeoutMs int) *TimingObs {
 	} else {
 		timingconfig.MakeBuilder().WithSimulation(s).WithNumGPUs(1).VerifBuildWithShape(1, 1)
 	}
-	obs := &TimingObs{WgOf: []int{}, IdxOf: []int{}, Evs: []Ev{}, Done: []DoneRec{}}
+	obs := &TimingObs{WgOf: []int{}, IdxOf: []int{}, Evs: []Ev{}, Done: []DoneRec{}, SReqs: []SReq{}}
 	var theCU *cu.ComputeUnit
 	for _, comp := range s.Components() {
 		if x, ok := comp.(*cu.ComputeUnit); ok {
@@ -516,6 +582,7 @@ func runTiming(c Case, ws []uint32, timeoutMs int) *TimingObs {
 	}
 	r := &recorder{cu: theCU, ids: map[*wavefront.Wavefront]int{}, wgIdx: map[*wavefront.WorkGroup]int{},
 		mapReq: map[string]int{}, instOf: map[string][2]int{}, pendFin: map[string][2]int{}, obs: obs,
+		sreqInst: map[string]string{}, sreqOpen: map[string]int{}, sreqSeen: map[*mem.ReadReq]bool{}, sinstNo: map[string]int{},
 		firstMap: -1, flushes: c.Flush, engine: s.GetEngine()}
 	if len(c.Flush) > 0 {
 		r.ctrl = &ctrlPort{Port: theCU.ToCP, onRsp: r.onCtrlRsp}
@@ -527,6 +594,7 @@ func runTiming(c Case, ws []uint32, timeoutMs int) *TimingObs {
 	tracing.CollectTrace(theCU, r)
 	s.GetEngine().AcceptHook(r)
 	theCU.ToACE.AcceptHook(portHook{r})
+	theCU.ToScalarMem.AcceptHook(scalarPortHook{r})
 	if c.Refuse > 0 {
 		theCU.ToACE = &refusingPort{Port: theCU.ToACE, k: c.Refuse, tries: map[string]int{}, refused: &obs.Refused, wake: theCU.TickLater,
 			cycle: func() int { return r.cycle }, fullIn: -1}
